@@ -297,33 +297,35 @@ where
     }
     fn scope(&mut self, event_time: &usize) {
         // long c_sup = (long) Math.ceil(((double) Math.abs(t_e - t0) / (double) slide)) * slide;
-        let _temp = (*event_time as f64 - self.t_0 as f64).abs();
-        let _temp = ((*event_time as f64 - self.t_0 as f64).abs() / (self.slide as f64)).ceil();
-        let c_sup = ((*event_time as f64 - self.t_0 as f64).abs() / (self.slide as f64)).ceil()
-            * self.slide as f64;
+        // Integer arithmetic: f64 is exact only below 2^53, beyond that the windows were
+        // misaligned and `o_i += slide` could stop making progress.
+        let event_time = *event_time as i128;
+        let slide = self.slide as i128;
+        let width = self.width as i128;
+        let distance = (event_time - self.t_0 as i128).abs();
+        let c_sup = (distance + slide - 1) / slide * slide;
         // long o_i = c_sup - width;
-        let mut o_i = c_sup - self.width as f64;
+        let mut o_i = c_sup - width;
         debug!(
             "Calculating the Windows to Open. First one opens at [{:?}] and closes at [{:?}]",
             o_i, c_sup
         );
-        // log.debug("Calculating the Windows to Open. First one opens at [" + o_i + "] and closes at [" + c_sup + "]");
-        //
+        let clamp = |v: i128| v.clamp(0, usize::MAX as i128) as usize;
         loop {
             debug!(
                 "Computing Window [{:?},{:?}) if absent",
                 o_i,
-                (o_i + self.width as f64)
+                (o_i + width)
             );
             let window = Window {
-                open: o_i as usize,
-                close: (o_i + self.width as f64) as usize,
+                open: clamp(o_i),
+                close: clamp(o_i + width),
             };
             if let None = self.active_windows.get(&window) {
                 self.active_windows.insert(window, ContentContainer::new_with_origin(&self.uri));
             }
-            o_i += self.slide as f64;
-            if o_i > *event_time as f64 {
+            o_i += slide;
+            if o_i > event_time {
                 break;
             }
         }
